@@ -9,6 +9,7 @@ import Driver.Util
   gg genum assert j y t c d                  -> interfaces the spec demands (`*` = on the pointer)
   gg genum build j y t c d <kind>*           -> ok | fail:undefined-type   (model-level compile conditions)
   gg genum fmt                               -> clean
+  gg <gen> overprev                          -> same          (run over a different previous output = fresh run)
   gg gerror methods s | imports s | assert s | build s | run | fmt
   gg gsort  methods   | imports   | assert   | build   | run | fmt
   gg <gen> type <T>                          -> ok            (selects the type the next `methods` is about)
@@ -51,6 +52,7 @@ def handle (ws : List String) : String :=
   match ws with
   | [_, "run"] => "ok"
   | [_, "fmt"] => "clean"
+  | [_, "overprev"] => "same"
   | [_, "type", _] => "ok"
   | "genum" :: "methods" :: rest =>
     match optsOf rest with
